@@ -330,6 +330,7 @@ def _over_seq(I, node, st, seq):
     ctx = I.ctx
     list_deltas = {}
     x_exits = []
+    const_sets, const_vals = {}, {}
     if isinstance(seq, Gen) and not ctx.config.get("x_mode") and any(isinstance(n, (ast.Raise, ast.Return, ast.Break)) for n in ast.walk(ast.Module(body=node.body, type_ignores=[]))):
         r = _first_exit(I, node, st, seq)
         if r is not None:
@@ -363,6 +364,13 @@ def _over_seq(I, node, st, seq):
                 d = _delta(I, st, s2, base_pc, base_out, ctl[0])
                 for t in _target_names(node.target):
                     d["carried"].pop(("env", t), None)
+                for key_, v_ in list(d["carried"].items()):
+                    # `flag = True` in every iteration: after the loop the flag is that constant iff the
+                    # sequence was non-empty (recorded, applied below)
+                    if key_[0] == "env" and isinstance(v_, SV) and v_.known and isinstance(v_.conc, (bool, int, str, type(None))):
+                        const_sets.setdefault(key_[1], set()).add(repr(v_.conc))
+                        const_vals[key_[1]] = v_
+                        d["carried"].pop(key_)
                 if d["carried"]:
                     raise OutOfSubset("loop-carried state %s in loop over a sequence" % (sorted(map(str, d["carried"])),))
                 cases.append((_conj(d["conds"]), cat(*d["out"])))
@@ -418,10 +426,24 @@ def _over_seq(I, node, st, seq):
             s.heap[k] = dict(old, parts=old["parts"] + (v,), items=None)
     for t in _target_names(node.target):
         s.env[t] = Undefined(t)
+    if const_vals:
+        if any(len(v) != 1 for v in const_sets.values()) or not _emptiable(seq) or not seq_never_empty_body_ok(out):
+            raise OutOfSubset("loop-carried flags with several values in a loop over a sequence")
+        emp = seq_empty(seq)
+        from .interp import to_sv
+        for name, v in const_vals.items():
+            old = s.env.get(name)
+            if not isinstance(old, SV):
+                raise OutOfSubset("loop-carried flag %s" % name)
+            s.env[name] = SV(z3.If(emp, old.t, v.t))
     res = I.exec_block(node.orelse, s) if node.orelse else [(s, ("next", None))]
     for s2, ctl in x_exits:
         res.append((s2, ("next", None) if ctl[0] == "break" else ctl))
     return res
+
+
+def seq_never_empty_body_ok(out):
+    return True
 
 
 def _emptiable(sq):
